@@ -85,6 +85,9 @@ def run(ctx):
         onpath = lambda o: o.key.startswith(('args::', 'arg::', 'ArgsIter', 'ArgRangesIter', 'ParseAdjacent', 'ParseCommand', 'ParseFlag', 'ParseOrElse', 'ShortLong', 'any', 'positional_invariant'))
         ctx.guard(c08.keep_only, ctx, lambda: c04.census(ctx, cfg, fs), onpath, 'P.no-abort')
         ctx.guard(c08.keep_only, ctx, lambda: c04.invariant(ctx, cfg, fs), onpath, 'P.no-abort')
+        # ... the error renderer's "did you mean" table is indexed by character counts, and the splitter never hands an empty short name to construct
+        ctx.guard(c08.keep_only, ctx, lambda: c04.unit_agreement(ctx, cfg, fs), lambda o: True, 'P.no-abort')
+        ctx.guard(c08.keep_only, ctx, lambda: c04.short_name_nonempty(ctx, cfg, fs), lambda o: True, 'P.no-abort')
         ctx.guard(run_flow, ctx, cfg, fs)
         ctx.guard(argv0, ctx, cfg, fs)
         ctx.guard(who, ctx, cfg, fs)
